@@ -4,6 +4,8 @@
   `if subject == v1 or subject == v2: ... elif ...: ... else: ...` (singletons compare with `is`). A subject that is not a
   plain name is bound to a temporary first. Other pattern kinds (sequences, mappings, classes, captures, guards) are left
   alone - the CFG then reports the function as not modelled and every rule that needs it answers INCONCLUSIVE.
+* `if (x := E) == 0:` - an assignment expression that is the first thing the statement evaluates - is `x = E` followed by
+  `if x == 0:`.
 """
 from __future__ import annotations
 
@@ -86,9 +88,64 @@ def _lower_block(stmts: List[ast.stmt], counter: List[int]) -> bool:
     return changed
 
 
+def _first_evaluated_walrus(test: ast.AST) -> Optional[ast.NamedExpr]:
+    """the assignment expression that is evaluated before anything else in `test` (unconditionally), if there is one"""
+    e = test
+    while True:
+        if isinstance(e, ast.NamedExpr):
+            return e if isinstance(e.target, ast.Name) and not any(isinstance(x, ast.NamedExpr) for x in ast.walk(e.value)) else None
+        if isinstance(e, ast.Compare):
+            e = e.left
+        elif isinstance(e, ast.UnaryOp):
+            e = e.operand
+        elif isinstance(e, ast.BoolOp):
+            e = e.values[0]
+        elif isinstance(e, ast.BinOp):
+            e = e.left
+        else:
+            return None
+
+
+def _lower_walrus(stmts: List[ast.stmt]) -> bool:
+    """`if (x := E) == 0:`  ->  `x = E` followed by `if x == 0:` (assignment statements and `return`s likewise)"""
+    changed = False
+    i = 0
+    while i < len(stmts):
+        st = stmts[i]
+        holder = "test" if isinstance(st, ast.If) else "value" if isinstance(st, (ast.Assign, ast.Return, ast.Expr)) and getattr(st, "value", None) is not None else None
+        w = _first_evaluated_walrus(getattr(st, holder)) if holder else None
+        if w is not None:
+            asg = ast.copy_location(ast.Assign(targets=[ast.Name(id=w.target.id, ctx=ast.Store())], value=w.value), st)
+
+            class R(ast.NodeTransformer):
+                def visit_NamedExpr(self, n):
+                    if n is w:
+                        return ast.copy_location(ast.Name(id=w.target.id, ctx=ast.Load()), n)
+                    return self.generic_visit(n)
+
+            setattr(st, holder, R().visit(getattr(st, holder)))
+            ast.fix_missing_locations(asg)
+            ast.fix_missing_locations(st)
+            stmts[i:i + 1] = [asg, st]
+            changed = True
+            continue
+        for fld in ("body", "orelse", "finalbody"):
+            sub = getattr(st, fld, None)
+            if isinstance(sub, list) and sub and isinstance(sub[0], ast.stmt) and not isinstance(st, (ast.FunctionDef, ast.AsyncFunctionDef, ast.ClassDef)):
+                changed |= _lower_walrus(sub)
+        for h in getattr(st, "handlers", []) or []:
+            changed |= _lower_walrus(h.body)
+        i += 1
+    return changed
+
+
 def lower_program(prog: Program) -> None:
     counter = [0]
     log = []
+    for f in list(prog.all_functions(include_inlined=True)):
+        if any(isinstance(n, ast.NamedExpr) for n in ast.walk(f.node)):
+            if _lower_walrus(f.node.body):
+                log.append(f"{f.qualname}: assignment expression at the head of a statement written as an assignment statement")
     for f in list(prog.all_functions(include_inlined=True)):
         if any(isinstance(n, ast.Match) for n in ast.walk(f.node)):
             if _lower_block(f.node.body, counter):
